@@ -16,7 +16,7 @@ from phylib.io.model import load_model  # noqa: E402
 
 ID = 'C10'
 LEVEL = 'exploration'
-FIELDS = ['group', 'quality', 'n_x', 'KSLabel']
+FIELDS = ['group', 'quality', 'n_x', 'KSLabel', 'i', 'inf']
 RULE = (
     "Hypothesis RuleBasedStateMachine; the case is (dataset spec, operation trace). Datasets: KS "
     "or ALF names, dense or sparse templates, raw data present (flat/npy/cbin, chunk length small "
